@@ -14,11 +14,9 @@ EXPECT = {
     "seeded-C05-4": ("accepted-miss", "suppresses the propagation of a pending tuple cycle inside calculateEdgeWeight: value logic of the cycle bookkeeping"),
     "seeded-C05-5": ("accepted-miss", "changes where isTupleCycle starts looking in the ancestor path: value logic of the back-edge classification"),
     "seeded-C05-7": ("accepted-miss", "changes from which edge isTupleCycle scans the ancestor path: value logic of the back-edge classification, no structural clause"),
-    "seeded-C11-8": ("accepted-miss", "fixDependantEdgesWeight takes the wildcards from edge.to instead of the resolved cycle root: which node's list is copied is value logic of the propagation, no structural clause"),
     "seeded-C05-10": ("accepted-miss", "replaces the ancestor-path scan of isTupleCycle by a flag passed down the search: which cycles count as tuple cycles is value logic of the classification"),
     "seeded-C05-11": ("accepted-miss", "seeds the intersection's candidate types from the first edge only (idx == 0 instead of an empty set): value logic of the enforce-type strategy"),
     "seeded-C06-11": ("accepted-miss", "break instead of continue in the de-duplication of pending cycles: which cycles are recorded is value logic"),
-    "seeded-C11-10": ("accepted-miss", "a fast path skips the merge of the cycle root's wildcards into an edge that already has some: value logic of the propagation"),
     "seeded-C17-10": ("accepted-miss", "the existence test for a tuple-to-userset target reads the metadata map instead of the relation map: which map is consulted is value logic (C05 reports the same patch through the order rule)"),
     "seeded-C14-5": ("accepted-miss", "changes which models count as modular (any → all): a predicate over the model, no structural clause"),
     "benign-C15-12": ("accepted-alarm", "the entry checks become a package-level table of predicates scanned with slices.IndexFunc; the C15 rules read the conditions on the enumerated paths and do not unroll a table of function values, so the guards are not seen (DESIGN 11.7)"),
